@@ -88,7 +88,15 @@ struct World {
         size_t n = I.nchan();
         if(keys.on.size() != n) keys.on.resize(n, 0);
     }
-    void advance_ms(double ms) { I.advance_ms(ms, rate); }
+    // advances >= this many ms are made with opn2_tickEvents() in 50 ms steps (public API for clocking the synth without audio)
+    long tick_advance_threshold_ms = 0;
+    void advance_ms(double ms) {
+        if(tick_advance_threshold_ms > 0 && ms >= tick_advance_threshold_ms) {
+            double left = ms / 1000.0;
+            while(left > 1e-9) { double st = left > 0.05 ? 0.05 : left; opn2_tickEvents(I.dev, st, 0.001); left -= st; }
+        } else
+            I.advance_ms(ms, rate);
+    }
 
     void apply(const Op &p) {
         OPN2_MIDIPlayer *d = I.dev;
